@@ -312,11 +312,14 @@ pub fn compare(imp: &str, model: &str, p: &Proj) -> Option<(String, bool)> {
             return Some(("shape".into(), false));
         }
         let doc = extra(&b, "doc=") == Some("1");
-        // the I/O group: the properties say nothing about what an implemented IN/OUT does (ports are outside the
-        // machine state); this tree reports them as unknown, which is what the model does.  If the implementation
-        // executes one, the step cannot be judged against the model and is left alone (C17's twins still apply).
+        // encodings the pinned tree reports as unknown are the I/O group and undocumented ones (every documented
+        // non-I/O encoding is implemented: theorem C05_documented).  The properties do not say what an implementation
+        // that chooses to EXECUTE one of them must do (ports are outside the machine state, undocumented behaviour is
+        // not in Zilog's specification), so such a step cannot be judged against the model and the case is left
+        // alone from there on (the implementation's own twin relations still apply).  `io=` on timed and sweep
+        // replies means "the model reported this step as unknown".
         let timed = a.len() > 14 && !a[13].contains('=');
-        if extra(&b, "io=") == Some("1") && ((a[11] != "255" && b[11] == "255") || (timed && a[14] != b[14])) {
+        if (!timed && a[11] != "255" && b[11] == "255") || (timed && extra(&b, "io=") == Some("1") && a[14] != b[14]) {
             return Some(("\u{0}unjudged".into(), false));
         }
         match p.mode {
@@ -546,6 +549,7 @@ pub fn run_chunk(drv: &str, tmpdir: &str, cases: &[Case]) -> Stats {
             st.samples.push(format!("{} => {}", script().replace('\n', " ; "), flat.join(" ; ")));
         }
         let mut reported = false;
+        let mut unjudged = false;
         let mut ln = 0;
         for (li, exp) in ran[ci].lines.iter().enumerate() {
             for (line, reply) in exp {
@@ -553,14 +557,15 @@ pub fn run_chunk(drv: &str, tmpdir: &str, cases: &[Case]) -> Stats {
                 let m = model.get(k).map(|s| s.as_str()).unwrap_or("<missing>");
                 k += 1;
                 ln += 1;
-                if reported {
+                if reported || unjudged {
                     continue;
                 }
                 if let Some((what, oracle)) = compare(reply, m, &c.projs[li]) {
                     if what.starts_with('\u{0}') {
                         // an I/O instruction the implementation executes: from here on the two sides may differ
                         // legitimately (the port data is not part of the machine state); the rest of the case is not judged
-                        reported = true;
+                        // against the model (relations between the implementation's own replies still are)
+                        unjudged = true;
                         continue;
                     }
                     st.mismatch_count += 1;
